@@ -131,7 +131,7 @@ fn unspent(network: Network, blocks: &[Block]) -> BTreeMap<OutPoint, Vec<u8>> {
 
 // ================================================================= C08
 
-fn c08_oracle(obs: &Obs, cx: &Cx) -> CheckResult {
+pub fn c08_oracle(obs: &Obs, cx: &Cx) -> CheckResult {
   let stop = obs.stop;
   let dump = obs.dump;
   let entries: BTreeMap<RuneId, &RuneEntry> = dump.rune_entries.iter().map(|(id, e)| (*id, e)).collect();
